@@ -241,17 +241,25 @@ fn model_step<'a>(orig: &'a str, m: &mut Model, op: &Op) -> (MOut<'a>, Option<(u
             MOut::Ok(None)
         }
         Op::TrimMatches(p) => {
-            let pt = p.text();
-            let ts = rem.trim_start_matches(pt.as_str());
-            let a_lo = hi - ts.len();
-            let a_hi = a_lo + ts.trim_end_matches(pt.as_str()).len();
-            let te = rem.trim_end_matches(pt.as_str());
-            let b_hi = lo + te.len();
-            let b_lo = b_hi - te.trim_start_matches(pt.as_str()).len();
-            m.lo = a_lo;
-            m.hi = a_hi;
-            if (b_lo, b_hi) != (a_lo, a_hi) {
-                alt = Some((b_lo, b_hi));
+            // two-sided trimming with a multi-char pattern has no std equal; C14's oracle is "the
+            // corresponding free string function", i.e. konst::string::trim_matches on the previous
+            // remainder (its own agreement with std's one-sided functions is C05's business)
+            let t = match p {
+                Pat::S(x) => konst::string::trim_matches(rem, x.as_str()),
+                Pat::C(c) => konst::string::trim_matches(rem, *c),
+            };
+            if t.is_empty() {
+                // position of an empty result: where start-trimming ends (what the free function returns)
+                let pt = p.text();
+                let ts = rem.trim_start_matches(pt.as_str());
+                m.lo = hi - ts.len();
+                m.hi = m.lo;
+                // an empty remainder may legitimately sit anywhere the two one-sided trims can meet
+                let te = rem.trim_end_matches(pt.as_str());
+                alt = Some((lo + te.len(), lo + te.len()));
+            } else {
+                m.lo = lo + (t.as_ptr() as usize - rem.as_ptr() as usize);
+                m.hi = m.lo + t.len();
             }
             MOut::Ok(None)
         }
